@@ -12,6 +12,7 @@
   stuttering) an execution of the model, and the model's theorems (C06, C07, C17) speak about it.
 -/
 import Kanal.ProtoConf
+import Kanal.Props.C07
 
 namespace Kanal
 namespace ProtoSim
@@ -57,8 +58,8 @@ inductive SSteps : SCfg → SCfg → Prop where
   | refl (g) : SSteps g g
   | tail {a b c} : SSteps a b → SStep b c → SSteps a c
 
-/-- The correspondence between a machine configuration and a state of `SigM`. -/
-structure SRel (o : Ords) (Q : Option Bool → WKind → WPc → Prop) (g : SCfg) (s : SigM.State) : Prop where
+/-- The part of the correspondence that one machine step is checked against. -/
+structure SRelCore (o : Ords) (Q : Option Bool → WKind → WPc → Prop) (g : SCfg) (s : SigM.State) : Prop where
   word  : g.word = s.st
   token : g.token = s.token
   /-- the waiter's tree conforms at the model's pc; inside `park()` the model is `parked` -/
@@ -66,6 +67,50 @@ structure SRel (o : Ords) (Q : Option Bool → WKind → WPc → Prop) (g : SCfg
            (g.parked = true ∧ s.wpc = .parked ∧ s.kind = .sync ∧ ∃ k, g.wt = .eff .park k ∧ WConf o Q k .sync .parkLoad)
   /-- the peer's tree conforms at the model's pc and writes the model's final state -/
   peer  : PConf o s.fin g.pt s.kind s.ppc
+
+/-- What the waiter has seen is what the word holds: an invariant of `SigM` (for any orderings), needed for the
+    re-read of the final word (`WConf.reload`). -/
+structure WInv (s : SigM.State) : Prop where
+  a         : C07.InvA s
+  doneSees  : ∀ v b, s.wpc = .done v b → v = s.st ∧ s.st.isFinal = true
+  fenceSees : ∀ v, s.wpc = .fence v → v = s.st ∧ s.st.isFinal = true
+
+theorem winv_init (kind : WKind) (fin : St) (payload : Bool) (hf : fin.isFinal = true) :
+    WInv (SigM.init kind fin payload) := by
+  refine ⟨C07.invA_init kind fin payload hf, ?_, ?_⟩ <;> intro v <;> simp [SigM.init]
+
+open C07 in
+theorem winv_step {o : Ords} {s s' : SigM.State} {e : SigM.Ev} (h : WInv s) (hs : SigM.step o s e = some s') : WInv s' := by
+  have ha' := invA_step h.a hs
+  obtain ⟨⟨a1, a2, a3, a4, a5, a6, a7, a8⟩, h1, h2⟩ := h
+  have hc := C07.St.final_cases s.st
+  have hf := C07.St.final_cases s.fin
+  refine ⟨ha', ?_, ?_⟩
+  all_goals (cases e <;> sig_open hs)
+  all_goals grind [SigM.touch, SigM.St.isFinal]
+
+theorem winv_run {o : Ords} : ∀ {es : List SigM.Ev} {s s' : SigM.State}, WInv s → SigM.run o s es = some s' → WInv s' := by
+  intro es
+  induction es with
+  | nil => intro s s' h e; simp [SigM.run] at e; subst e; exact h
+  | cons e es ih =>
+    intro s s' h he
+    simp only [SigM.run] at he
+    split at he
+    · rename_i s1 hs; exact ih (winv_step h hs) he
+    · cases he
+
+theorem winv_reach {o : Ords} {kind : WKind} {fin : St} {payload : Bool} (hf : fin.isFinal = true) {s : SigM.State}
+    (h : SigM.Reach o kind fin payload s) : WInv s := by
+  induction h with
+  | init => exact winv_init kind fin payload hf
+  | step _ hs ih => exact winv_step ih hs
+
+/-- The correspondence between a machine configuration and a state of `SigM`: word, token, conformance of both trees
+    at the model's program counters, and the model state satisfies the word invariant. -/
+structure SRel (o : Ords) (Q : Option Bool → WKind → WPc → Prop) (g : SCfg) (s : SigM.State) : Prop
+    extends SRelCore o Q g s where
+  inv : WInv s
 
 /-! ### basic facts about the word, `touch` and `run` -/
 
@@ -191,8 +236,8 @@ theorem PStep.cas_inv {g g' : SCfg} {e n so fo k} (h : PStep g g') (ht : g.pt = 
 
 /-! ### the peer: exactly one model step per machine step -/
 
-theorem peer_sim (o : Ords) (Q) {g g' : SCfg} {s : SigM.State} (hR : SRel o Q g s) (hs : PStep g g') :
-    ∃ e s', SigM.step o s e = some s' ∧ SRel o Q g' s' := by
+theorem peer_sim (o : Ords) (Q) {g g' : SCfg} {s : SigM.State} (hR : SRelCore o Q g s) (hs : PStep g g') :
+    ∃ e s', SigM.step o s e = some s' ∧ SRelCore o Q g' s' := by
   obtain ⟨hword, htok, hw, hp⟩ := hR
   generalize hpt : g.pt = t at hp
   generalize hppc : s.ppc = pc at hp
@@ -288,31 +333,33 @@ theorem WStep.park_inv {g g' : SCfg} {k} (h : WStep g g') (ht : g.wt = .eff .par
 
 theorem wconf_sim (o : Ords) (Q) {t kind pc} (h : WConf o Q t kind pc) :
     ∀ (g g' : SCfg) (s : SigM.State), g.wt = t → s.kind = kind → s.wpc = pc → g.parked = false →
-      g.word = s.st → g.token = s.token → PConf o s.fin g.pt s.kind s.ppc → WStep g g' →
-      ∃ evs s', SigM.run o s evs = some s' ∧ SRel o Q g' s' := by
+      g.word = s.st → g.token = s.token → PConf o s.fin g.pt s.kind s.ppc → WInv s → WStep g g' →
+      ∃ evs s', SigM.run o s evs = some s' ∧ SRelCore o Q g' s' := by
   induction h with
-  | done hq => intro g g' s hwt hkind hpc hpar hword htok hpeer hstep; exact (hstep.done_inv hwt).elim
-  | diverge => intro g g' s hwt hkind hpc hpar hword htok hpeer hstep; exact (hstep.diverge_inv hwt).elim
+  | done hq => intro g g' s hwt hkind hpc hpar hword htok hpeer hinv hstep; exact (hstep.done_inv hwt).elim
+  | diverge => intro g g' s hwt hkind hpc hpar hword htok hpeer hinv hstep; exact (hstep.diverge_inv hwt).elim
   | stutter he hk ih =>
-    intro g g' s hwt hkind hpc hpar hword htok hpeer hstep
+    intro g g' s hwt hkind hpc hpar hword htok hpeer hinv hstep
     have := hstep.eff_inv hwt (by rintro rfl; simp [isStutter] at he); subst this
     exact ⟨[], s, rfl, ⟨hword, htok, .inl ⟨hpar, by rw [hkind, hpc]; exact hk⟩, hpeer⟩⟩
   | ask hk ih =>
-    intro g g' s hwt hkind hpc hpar hword htok hpeer hstep
+    intro g g' s hwt hkind hpc hpar hword htok hpeer hinv hstep
     obtain ⟨b, rfl⟩ := hstep.ask_inv hwt
     exact ⟨[], s, rfl, ⟨hword, htok, .inl ⟨hpar, by rw [hkind, hpc]; exact hk b⟩, hpeer⟩⟩
   | giveUpSync hk ih =>
-    intro g g' s hwt hkind hpc hpar hword htok hpeer hstep
+    intro g g' s hwt hkind hpc hpar hword htok hpeer hinv hstep
     have hst : SigM.step o s .wGiveUpSpin = some { s with wpc := .publish } := by simp [SigM.step, hpc, hkind]
-    obtain ⟨evs, s', hrun, hrel⟩ := ih g g' { s with wpc := .publish } hwt hkind rfl hpar hword htok hpeer hstep
+    obtain ⟨evs, s', hrun, hrel⟩ := ih g g' { s with wpc := .publish } hwt hkind rfl hpar hword htok hpeer
+      (winv_step hinv hst) hstep
     exact ⟨.wGiveUpSpin :: evs, s', run_cons hst hrun, hrel⟩
   | giveUpTimed hk ih =>
-    intro g g' s hwt hkind hpc hpar hword htok hpeer hstep
+    intro g g' s hwt hkind hpc hpar hword htok hpeer hinv hstep
     have hst : SigM.step o s .wGiveUpSpin = some { s with wpc := .timedFinal } := by simp [SigM.step, hpc, hkind]
-    obtain ⟨evs, s', hrun, hrel⟩ := ih g g' { s with wpc := .timedFinal } hwt hkind rfl hpar hword htok hpeer hstep
+    obtain ⟨evs, s', hrun, hrel⟩ := ih g g' { s with wpc := .timedFinal } hwt hkind rfl hpar hword htok hpeer
+      (winv_step hinv hst) hstep
     exact ⟨.wGiveUpSpin :: evs, s', run_cons hst hrun, hrel⟩
   | load hk ih =>
-    intro g g' s hwt hkind hpc hpar hword htok hpeer hstep
+    intro g g' s hwt hkind hpc hpar hword htok hpeer hinv hstep
     have := hstep.load_inv hwt; subst this
     have h1 := hk s.st
     by_cases hf : s.st.isFinal = true
@@ -323,14 +370,14 @@ theorem wconf_sim (o : Ords) (Q) {t kind pc} (h : WConf o Q t kind pc) :
       rw [if_neg hf] at h1
       exact ⟨hword, htok, .inl ⟨hpar, by simpa [hkind, hword, hpc] using h1⟩, hpeer⟩
   | fence hk ih =>
-    intro g g' s hwt hkind hpc hpar hword htok hpeer hstep
+    intro g g' s hwt hkind hpc hpar hword htok hpeer hinv hstep
     rename_i k kind v
     have := hstep.fence_inv hwt; subst this
     refine ⟨[.wFence], { s with wpc := .done v (o.spinFence.isAcquire && s.finRelease) },
       run_one (by simp [SigM.step, hpc]), ?_⟩
     exact ⟨hword, htok, .inl ⟨hpar, by simpa [hkind] using hk _⟩, hpeer⟩
   | timedFinal hk ih =>
-    intro g g' s hwt hkind hpc hpar hword htok hpeer hstep
+    intro g g' s hwt hkind hpc hpar hword htok hpeer hinv hstep
     have := hstep.load_inv hwt; subst this
     by_cases hf : s.st = .unlocked
     · have h1 := hk s.st (o.timeoutFinal.isAcquire && s.finRelease)
@@ -343,7 +390,7 @@ theorem wconf_sim (o : Ords) (Q) {t kind pc} (h : WConf o Q t kind pc) :
       rw [if_neg hf] at h1
       exact ⟨hword, htok, .inl ⟨hpar, by simpa [hkind, hword] using h1⟩, hpeer⟩
   | timedIsTerm hk ih =>
-    intro g g' s hwt hkind hpc hpar hword htok hpeer hstep
+    intro g g' s hwt hkind hpc hpar hword htok hpeer hinv hstep
     have := hstep.load_inv hwt; subst this
     have h1 := hk s.st
     by_cases hf : s.st = .terminated
@@ -355,12 +402,12 @@ theorem wconf_sim (o : Ords) (Q) {t kind pc} (h : WConf o Q t kind pc) :
       rw [hkind] at hpeer
       exact ⟨hword, htok, .inl ⟨hpar, by simpa [hword] using h1⟩, PConf_timed_iff_sync.mp hpeer⟩
   | publish hk ih =>
-    intro g g' s hwt hkind hpc hpar hword htok hpeer hstep
+    intro g g' s hwt hkind hpc hpar hword htok hpeer hinv hstep
     have := hstep.eff_inv hwt (by decide); subst this
     refine ⟨[.wPublish], { s with cellWritten := true, wpc := .casStarv }, run_one (by simp [SigM.step, hpc]), ?_⟩
     exact ⟨hword, htok, .inl ⟨hpar, by simpa [hkind] using hk⟩, hpeer⟩
   | casStarv hok hfail ih1 ih2 =>
-    intro g g' s hwt hkind hpc hpar hword htok hpeer hstep
+    intro g g' s hwt hkind hpc hpar hword htok hpeer hinv hstep
     rcases hstep.cas_inv hwt with ⟨h2, rfl⟩ | ⟨h2, rfl⟩
     · have hl : s.st = .locked := by rw [← hword]; exact St.toNat_eq_two.mp h2
       refine ⟨[.wCasStarv], { s with st := .starvation, starvRelease := o.starvCasSucc.isRelease, wpc := .park },
@@ -371,7 +418,7 @@ theorem wconf_sim (o : Ords) (Q) {t kind pc} (h : WConf o Q t kind pc) :
         run_one (by simp [SigM.step, hpc, hl]), ?_⟩
       exact ⟨hword, htok, .inl ⟨hpar, by simpa [hkind, hword] using hfail s.st hl _⟩, hpeer⟩
   | park hk ih =>
-    intro g g' s hwt hkind hpc hpar hword htok hpeer hstep
+    intro g g' s hwt hkind hpc hpar hword htok hpeer hinv hstep
     rename_i k
     rcases hstep.park_inv hwt hpar with ⟨h2, rfl⟩ | ⟨h2, rfl⟩
     · refine ⟨[.wPark], { s with token := false, wpc := .parkLoad },
@@ -380,7 +427,7 @@ theorem wconf_sim (o : Ords) (Q) {t kind pc} (h : WConf o Q t kind pc) :
     · refine ⟨[.wPark], { s with wpc := .parked }, run_one (by simp [SigM.step, hpc, ← htok, h2]), ?_⟩
       exact ⟨hword, htok, .inr ⟨rfl, rfl, hkind, k, hwt, hk⟩, hpeer⟩
   | parkLoad hk ih =>
-    intro g g' s hwt hkind hpc hpar hword htok hpeer hstep
+    intro g g' s hwt hkind hpc hpar hword htok hpeer hinv hstep
     have := hstep.load_inv hwt; subst this
     have h1 := hk s.st (o.parkLoad.isAcquire && s.finRelease)
     by_cases hf : s.st.isFinal = true
@@ -392,11 +439,18 @@ theorem wconf_sim (o : Ords) (Q) {t kind pc} (h : WConf o Q t kind pc) :
       rw [if_neg hf] at h1
       exact ⟨hword, htok, .inl ⟨hpar, by simpa [hkind, hword] using h1⟩, hpeer⟩
 
+  | reload hk ih =>
+    intro g g' s hwt hkind hpc hpar hword htok hpeer hinv hstep
+    rename_i k kind v b
+    have := hstep.load_inv hwt; subst this
+    have hv : g.word = v := by rw [hword]; exact (hinv.doneSees v b hpc).1.symm
+    exact ⟨[], s, rfl, ⟨hword, htok, .inl ⟨hpar, by rw [hkind, hpc, hv]; exact hk⟩, hpeer⟩⟩
+
 /-! ### `sig_sim` -/
 
 /-- the waiter inside `park()`: a spurious return or one that consumes the token -/
-theorem parked_sim (o : Ords) (Q) {g g' : SCfg} {s : SigM.State} (hR : SRel o Q g s) (hp : g.parked = true)
-    (hs : WStep g g') : ∃ e s', SigM.step o s e = some s' ∧ SRel o Q g' s' := by
+theorem parked_sim (o : Ords) (Q) {g g' : SCfg} {s : SigM.State} (hR : SRelCore o Q g s) (hp : g.parked = true)
+    (hs : WStep g g') : ∃ e s', SigM.step o s e = some s' ∧ SRelCore o Q g' s' := by
   obtain ⟨hword, htok, hw, hpeer⟩ := hR
   rcases hw with ⟨h0, _⟩ | ⟨_, hpc, hkind, k, hwt, hk⟩
   · rw [hp] at h0; cases h0
@@ -408,20 +462,26 @@ theorem parked_sim (o : Ords) (Q) {g g' : SCfg} {s : SigM.State} (hR : SRel o Q 
   · refine ⟨.wUnparked true, { s with wpc := .parkLoad }, by simp [SigM.step, hpc], ?_⟩
     exact ⟨hword, htok, .inl ⟨rfl, by simpa [hkind] using hk⟩, hpeer⟩
 
-/-- Every machine step is matched by zero or more model steps that keep the correspondence. -/
-theorem sig_sim (o : Ords) (Q) {g g' : SCfg} {s : SigM.State} (hR : SRel o Q g s) (hs : SStep g g') :
-    ∃ evs s', SigM.run o s evs = some s' ∧ SRel o Q g' s' := by
+/-- Every machine step is matched by zero or more model steps that keep the core correspondence. -/
+theorem sig_sim_core (o : Ords) (Q) {g g' : SCfg} {s : SigM.State} (hR : SRel o Q g s) (hs : SStep g g') :
+    ∃ evs s', SigM.run o s evs = some s' ∧ SRelCore o Q g' s' := by
   rcases hs.split with hw | hp
   · cases hpar : g.parked with
     | true =>
-      obtain ⟨e, s', h1, h2⟩ := parked_sim o Q hR hpar hw
+      obtain ⟨e, s', h1, h2⟩ := parked_sim o Q hR.toSRelCore hpar hw
       exact ⟨[e], s', run_one h1, h2⟩
     | false =>
       rcases hR.waiter with ⟨_, hc⟩ | ⟨h0, _⟩
-      · exact wconf_sim o Q hc g g' s rfl rfl rfl hpar hR.word hR.token hR.peer hw
+      · exact wconf_sim o Q hc g g' s rfl rfl rfl hpar hR.word hR.token hR.peer hR.inv hw
       · rw [hpar] at h0; cases h0
-  · obtain ⟨e, s', h1, h2⟩ := peer_sim o Q hR hp
+  · obtain ⟨e, s', h1, h2⟩ := peer_sim o Q hR.toSRelCore hp
     exact ⟨[e], s', run_one h1, h2⟩
+
+/-- Every machine step is matched by zero or more model steps that keep the correspondence. -/
+theorem sig_sim (o : Ords) (Q) {g g' : SCfg} {s : SigM.State} (hR : SRel o Q g s) (hs : SStep g g') :
+    ∃ evs s', SigM.run o s evs = some s' ∧ SRel o Q g' s' := by
+  obtain ⟨evs, s', hrun, hcore⟩ := sig_sim_core o Q hR hs
+  exact ⟨evs, s', hrun, ⟨hcore, winv_run hR.inv hrun⟩⟩
 
 theorem sig_sim_steps (o : Ords) (Q) {g g' : SCfg} {s : SigM.State} (hR : SRel o Q g s) (h : SSteps g g') :
     ∃ evs s', SigM.run o s evs = some s' ∧ SRel o Q g' s' := by
@@ -432,13 +492,15 @@ theorem sig_sim_steps (o : Ords) (Q) {g g' : SCfg} {s : SigM.State} (hR : SRel o
     obtain ⟨evs', s', hrun', hR'⟩ := sig_sim o Q hR1 hstep
     exact ⟨evs ++ evs', s', run_append hrun hrun', hR'⟩
 
-/-- Executions of conformant trees from the initial configuration stay within the reachable states of `SigM`. -/
+/-- Executions of conformant trees from the initial configuration stay within the reachable states of `SigM`
+    (`fin`, the state the peer is going to write, is one of the two final states). -/
 theorem sig_exec_reach {o : Ords} {kind : WKind} {fin : St} {payload : Bool} {Q} {W Pt : PAct}
+    (hf : fin.isFinal = true)
     (hW : WConf o Q W kind .spin) (hP : PConf o fin Pt kind (SigM.init kind fin payload).ppc)
     {g' : SCfg} (h : SSteps ⟨.locked, false, false, W, Pt⟩ g') :
     ∃ s', SigM.Reach o kind fin payload s' ∧ SRel o Q g' s' := by
   have hR : SRel o Q ⟨.locked, false, false, W, Pt⟩ (SigM.init kind fin payload) :=
-    ⟨rfl, rfl, .inl ⟨rfl, hW⟩, hP⟩
+    ⟨⟨rfl, rfl, .inl ⟨rfl, hW⟩, hP⟩, winv_init kind fin payload hf⟩
   obtain ⟨evs, s', hrun, hR'⟩ := sig_sim_steps o Q hR h
   exact ⟨s', SigM.Reach.init.run evs s' hrun, hR'⟩
 
@@ -492,17 +554,19 @@ example (o : Ords) :
   intro g' s'
   have hrun : SigM.run o (SigM.init .async .terminated false) [.pCloneWaker, .pStoreAsync, .wLoad, .wFence] = some s' := by
     rfl
-  exact ⟨ex_steps o, hrun, SigM.Reach.init.run _ _ hrun, ⟨rfl, rfl, .inl ⟨rfl, .done trivial⟩, .wake .done⟩⟩
+  exact ⟨ex_steps o, hrun, SigM.Reach.init.run _ _ hrun,
+    ⟨⟨rfl, rfl, .inl ⟨rfl, .done trivial⟩, .wake .done⟩, winv_reach rfl (SigM.Reach.init.run _ _ hrun)⟩⟩
 
 /-- … and the general theorem applies to it -/
 example (o : Ords) : ∃ s', SigM.Reach o .async .terminated false s' ∧
     SRel o (fun _ _ _ => True) ⟨.terminated, false, false, .done (some false), .eff .wake (.done none)⟩ s' :=
-  sig_exec_reach (exW_conf o) (exP_conf o) (ex_steps o)
+  sig_exec_reach rfl (exW_conf o) (exP_conf o) (ex_steps o)
 
 
 end ProtoSim
 end Kanal
 
+#print axioms Kanal.ProtoSim.winv_step
 #print axioms Kanal.ProtoSim.sig_sim
 #print axioms Kanal.ProtoSim.sig_sim_steps
 #print axioms Kanal.ProtoSim.sig_exec_reach
